@@ -204,9 +204,7 @@ theorem C11_response_bound (E : AEAD) {S C : Ctx} (hC : C.wf) (hSC : Sends S C)
   obtain ⟨_, _, pt, nonce, o, _, _, hP⟩ := protect_response_shape h
   apply unprotect_rejects (k := S.senderKey) (n := nonce) (a := aad S.algValue r.kid r.piv) (pt := pt)
     hC (by intro x hx; cases hx; exact hr')
-  · rw [hP]; simp [responseCode_isResponse]
   · rw [hP]; simp [findOpt]
-  · intro hx; cases hx
   · rw [hP]
   · intro rp hrp ⟨_, _, ha⟩
     obtain ⟨_, _, s, _, _, _, _, hsel, _, _, _, haad, _, _⟩ := recvParams_ok_inv hrp
@@ -244,22 +242,20 @@ theorem C11_accepted_is_authentic (E : AEAD) {B : Ctx} {rid : Option ReqId} {o :
 /-- **Tampering with the Partial IV of a request.**  Take an honestly protected request and
 replace its options by any option list whose OSCORE option does not decompress to the original
 Partial IV *bytes* (changed value, changed length, leading zero, removed, or not decompressible
-at all) — whatever else the rewritten option says.  Unprotection fails with a protection error.
-(For requests the Partial IV bytes are authenticated through the AAD, so here every change of
-representation counts.) -/
+at all) — whatever else the rewritten option says, and whatever the outer code was changed to.
+Unprotection fails with a protection error.  (For requests the Partial IV bytes are authenticated
+through the AAD.) -/
 theorem C11_tamper_request_piv (E : AEAD) {A B : Ctx} (hB : B.wf) (hAB : Sends A B)
     {seq : Nat} {m : Msg} {P : Protected} (h : protect E A seq m none = .ok P)
-    (opts' : List Opt) (opt' : Bytes) (hopt : findOpt 9 opts' = some opt')
+    (opts' : List Opt) (opt' : Bytes) (hopt : findOpt 9 opts' = some opt') (code' : Nat)
     (hchg : ∀ u', uncompress opt' = some u' → u'.piv ≠ some (shortPiv seq)) :
-    ∃ e, unprotect E B none { P.outer with opts := opts' } = .error e ∧ e.isProtection = true := by
+    ∃ e, unprotect E B none { P.outer with opts := opts', code := code' } = .error e ∧
+      e.isProtection = true := by
   obtain ⟨hreq, hseq, _, pt, nonce, o, _, _, _, hP⟩ := protect_request_shape h
   subst hP
-  have hcode := outerCode_request hreq
   apply unprotect_rejects (k := A.senderKey) (n := nonce)
     (a := aad A.algValue A.senderId (shortPiv seq)) (pt := pt) hB (by intro x hx; cases hx)
-  · simp [isResponse_of_post_fetch hcode]
   · simp [hopt]
-  · intro _; exact hcode
   · rfl
   · intro rp hrp ⟨_, _, ha⟩
     obtain ⟨option, u', s, _, hopt', hunc, _, hsel, _, _, _, haad, _, _⟩ := recvParams_ok_inv hrp
@@ -280,24 +276,22 @@ def sentResponseHeader (S : Ctx) (r : ReqId) (seq : Nat) : Unprot :=
 replace its options by any option list whose OSCORE option changes where the nonce comes from:
 a Partial IV with a different *numeric value*, a Partial IV added where the request's nonce was
 reused, or removed where the responder used its own (`nonceSource`: generator id and number).
-Unprotection fails with a protection error.  What is deliberately *not* covered: a response
-Partial IV with leading zero bytes has the same value and is not authenticated (RFC 8613 puts
-only the request's Partial IV into the AAD) — see `C11_response_piv_leading_zero_accepted`. -/
+Unprotection fails with a protection error, whatever the outer code was changed to.  (The
+byte-level statement, which also covers a re-encoded Partial IV, is
+`C11_tamper_response_piv_bytes`.) -/
 theorem C11_tamper_response_piv (E : AEAD) {S C : Ctx} (hC : C.wf) (hSC : Sends S C)
     {seq : Nat} {m : Msg} {r rc : ReqId} {P : Protected}
     (hk : rc.kid = r.kid) (hp : rc.piv = r.piv) (hrc : rc.wfFor C)
     (h : protect E S seq m (some r) = .ok P)
-    (opts' : List Opt) (opt' : Bytes) (hopt : findOpt 9 opts' = some opt')
+    (opts' : List Opt) (opt' : Bytes) (hopt : findOpt 9 opts' = some opt') (code' : Nat)
     (hchg : ∀ u', uncompress opt' = some u' →
       nonceSource C rc u' ≠ nonceSource C rc (sentResponseHeader S r seq)) :
-    ∃ e, unprotect E C (some rc) { P.outer with opts := opts' } = .error e ∧
+    ∃ e, unprotect E C (some rc) { P.outer with opts := opts', code := code' } = .error e ∧
       e.isProtection = true := by
   obtain ⟨_, _, pt, nonce, o, _, hmode, hP⟩ := protect_response_shape h
   apply unprotect_rejects (k := S.senderKey) (n := nonce) (a := aad S.algValue r.kid r.piv)
     (pt := pt) hC (by intro x hx; cases hx; exact hrc)
-  · rw [hP]; simp [responseCode_isResponse]
   · simp [hopt]
-  · intro hx; cases hx
   · rw [hP]
   · intro rp hrp ⟨_, hn, _⟩
     obtain ⟨option, u', s, _, hopt', hunc, _, hsel, _, _, hnonce, _, _, _⟩ := recvParams_ok_inv hrp
@@ -461,43 +455,219 @@ theorem C11_reencryption_accepted (E : AEAD) {A B : Ctx} (hA : A.wf) (hAB : Send
     rw [← hAB.key]; exact E.correct _ _ _ _
   exact ⟨_, _, unprotect_of_dec_some hrp' hd hp, rfl, rfl⟩
 
--- ## What is *not* a change of value (and is accepted, by the code as by the model) --------------
 
-/-- A response Partial IV with a leading zero byte has the same numeric value; only the
-request's Partial IV is in the AAD (RFC 8613 §5.4), so the rewritten response is still accepted
-and yields the same message.  This is the boundary of `C11_tamper_response_piv`. -/
-theorem C11_response_piv_leading_zero_accepted (E : AEAD) {S C : Ctx} (hSC : Sends S C)
+/-- **Tampering with the Partial IV of a response, byte level** (round 4: the response-side
+counterpart of `C11_tamper_request_piv`).  `_uncompress` hands out a Partial IV only in its shortest
+form, so the numeric statement above becomes one about bytes: replace the options of an honest
+response by any list whose OSCORE option does not decompress to exactly the Partial IV field that
+was sent (none when the request's nonce was reused, the bytes of the responder's own number
+otherwise) — a changed value, a leading zero byte (`01 05` → `02 00 05`), a field added, removed
+or undecodable — and unprotection fails with a protection error, whatever the outer code was
+changed to.  `hdist`: the request's key ID (the client's sender id) is not the responder's id
+(RFC 8613 §3.3: sender ids are unique under one key). -/
+theorem C11_tamper_response_piv_bytes (E : AEAD) {S C : Ctx} (hC : C.wf) (hSC : Sends S C)
     {seq : Nat} {m : Msg} {r rc : ReqId} {P : Protected}
-    (hk : rc.kid = r.kid) (hp : rc.piv = r.piv) (hown : r.canReuse = false)
-    (hshort : (shortPiv seq).length < 5)
+    (hk : rc.kid = r.kid) (hp : rc.piv = r.piv) (hrc : rc.wfFor C)
+    (hdist : rc.kid ≠ C.recipientId)
     (h : protect E S seq m (some r) = .ok P)
-    (opts' : List Opt) (opt' : Bytes) (hopt : findOpt 9 opts' = some opt')
-    (hobs : findOpt 6 opts' = none)
-    (hu : uncompress opt' = some (respUnprot S (some (0 :: shortPiv seq)))) :
-    unprotect E C (some rc) { P.outer with opts := opts' } = .ok (
-      { code := m.code,
-        opts := m.opts.filter (fun o => o.1 != 6),
-        observe := (findOpt 6 m.opts).map (fun b => (beToNat b : Int)),
-        payload := m.payload },
-      rc) := by
-  obtain ⟨pt, nonce, hpt, hpay, hcode, _, hmode, hrp⟩ := recv_response (B := C) hSC hk hp h
-  obtain ⟨_, _, _, _, _, _, _, _, _, hlen, _⟩ := recvParams_ok_inv hrp
-  have hn0 : constructNonce C.ivBytes C.commonIv (0 :: shortPiv seq) C.recipientId = some nonce := by
-    rcases hmode with ⟨hcr, _⟩ | ⟨_, _, hn1⟩
-    · rw [hown] at hcr; cases hcr
-    · rw [constructNonce_padPiv_congr (padPiv_zero_cons hshort)]; exact hn1
-  have hsel : selectPiv C (some rc) P.outer.code (respUnprot S (some (0 :: shortPiv seq))) =
-      .ok { piv := 0 :: shortPiv seq, gen := C.recipientId,
-            seqno := some (beToNat (0 :: shortPiv seq)), rid := rc } := by
-    simp [selectPiv]
-  have hrp' := recvParams_of_fields (tb := E.tagBytes) (B := C) (rid := some rc)
-    (o := { P.outer with opts := opts' })
-    (by simp [hcode, responseCode_isResponse]) hopt hu (idsAcceptable_resp hSC _) hsel rfl hlen hn0
-  have hd : E.dec C.recipientKey nonce (aad C.algValue rc.kid rc.piv) P.outer.payload = some pt := by
-    rw [hpay, ← hSC.key, ← hSC.alg, hk, hp]; exact E.correct _ _ _ _
-  have hnr := (protect_response_shape h).1
-  rw [unprotect_of_dec_some hrp' hd (parsePlaintext_buildPlaintext hpt)]
-  simp [finishUnprotect, observeResult, hnr, hobs]
+    (opts' : List Opt) (opt' : Bytes) (hopt : findOpt 9 opts' = some opt') (code' : Nat)
+    (hchg : ∀ u', uncompress opt' = some u' → u'.piv ≠ (sentResponseHeader S r seq).piv) :
+    ∃ e, unprotect E C (some rc) { P.outer with opts := opts', code := code' } = .error e ∧
+      e.isProtection = true := by
+  obtain ⟨_, _, pt, nonce, o, _, hmode, hP⟩ := protect_response_shape h
+  apply unprotect_rejects (k := S.senderKey) (n := nonce) (a := aad S.algValue r.kid r.piv)
+    (pt := pt) hC (by intro x hx; cases hx; exact hrc)
+  · simp [hopt]
+  · rw [hP]
+  · intro rp hrp ⟨_, hn, _⟩
+    obtain ⟨option, u', s, _, hopt', hunc, _, hsel, _, _, hnonce, _, _, _⟩ := recvParams_ok_inv hrp
+    simp only at hopt'
+    rw [hopt] at hopt'; cases hopt'
+    have hb := selectPiv_bounds hC (by intro x hx; cases hx; exact hrc) hunc hsel
+    rw [← hn] at hnonce
+    apply hchg u' hunc
+    rcases hmode with ⟨hcr, hn0, _⟩ | ⟨hcr, hseq, hn0, _⟩
+    · -- the sender reused the request's nonce: no Partial IV was sent
+      rw [hSC.iv, hSC.civ, ← hk, ← hp] at hn0
+      obtain ⟨e1, _⟩ := constructNonce_inj hC.ivLo hb.1 hb.2.1 hrc.1 hrc.2 hnonce hn0
+      simp only [sentResponseHeader, hcr, if_true, respUnprot]
+      cases hpv : u'.piv with
+      | none => rfl
+      | some p =>
+        simp only [selectPiv, hpv] at hsel
+        cases hsel
+        exact absurd e1.symm hdist
+    · -- the sender used its own sequence number
+      rw [hSC.iv, hSC.civ, hSC.id] at hn0
+      obtain ⟨e1, e2⟩ := constructNonce_inj hC.ivLo hb.1 hb.2.1 hC.rid
+        (by rw [natToBE_length]; omega) hnonce hn0
+      simp only [sentResponseHeader, hcr, respUnprot, Bool.false_eq_true, if_false]
+      cases hpv : u'.piv with
+      | none =>
+        simp only [selectPiv, hpv] at hsel
+        cases hsel
+        exact absurd e1 hdist
+      | some p =>
+        simp only [selectPiv, hpv] at hsel
+        cases hsel
+        simp only at e2
+        have hpb := uncompress_piv_bounds hunc p hpv
+        have hmin := uncompress_piv_minimal hunc p hpv
+        have hs := shortPiv_length hseq
+        have e3 : padPiv p = padPiv (shortPiv seq) := by
+          rw [e2, padPiv_full (natToBE_length 5 seq), padPiv_shortPiv hseq]
+        rw [padPiv_inj_of_minimal hmin (shortPiv_minimal seq) hpb.1 hpb.2 hs.1 hs.2 e3]
+
+/-- **Every byte of the OSCORE option counts.**  `_uncompress` is injective: two option values
+that decode to the same header (Partial IV, KID, KID context, group flag) are the same bytes.  So
+any change to the option value — bytes appended behind the announced fields, a flags byte put in
+front of an empty option, a re-encoded field — either makes the option undecodable (`DecodeError`)
+or changes one of the decoded fields, which the clauses about Partial IV, KID and KID context then
+judge.  (`wf`: the values consist of bytes.) -/
+theorem C11_option_bytes_determine_fields {o o' : Bytes} {u : Unprot} (hwf : o.wf) (hwf' : o'.wf)
+    (h : uncompress o = some u) (h' : uncompress o' = some u) : o = o' :=
+  uncompress_injective hwf hwf' h h'
+
+/-- … and what `_uncompress` accepts is exactly what `_compress` writes for that header -/
+theorem C11_uncompress_only_compressed {o : Bytes} {u : Unprot} (hwf : o.wf)
+    (h : uncompress o = some u) : compress u = some o :=
+  compress_uncompress hwf h
+
+/-- an undecodable OSCORE option is a `DecodeError`, for any message with a fitting outer code -/
+theorem unprotect_of_uncompress_none (E : AEAD) {B : Ctx} {rid : Option ReqId} {o : Msg}
+    {opt : Bytes} (hopt : findOpt 9 o.opts = some opt) (hu : uncompress opt = none) :
+    ∃ e, unprotect E B rid o = .error e ∧ e.isProtection = true := by
+  by_cases h1 : (rid.isSome != isResponse o.code) = true
+  · exact ⟨.protectionInvalid, unprotect_of_recv_error (by simp [recvParams, h1]), rfl⟩
+  by_cases h2 : (!isResponse o.code && !(o.code == 2 || o.code == 5)) = true
+  · exact ⟨.protectionInvalid, unprotect_of_recv_error (by simp only [recvParams, h1, h2]; rfl), rfl⟩
+  · exact ⟨.decodeError, unprotect_of_recv_error (by simp only [recvParams, h1, h2, hopt, hu]; rfl), rfl⟩
+
+/-- **Tampering with the OSCORE option of a response, any bytes.**  Replace the OSCORE option value
+`o` of an honest response by ANY other value `opt'` (bytes appended: `01 05` → `01 05 aa`; `00 aa
+bb` for the empty option; a re-encoded or rewritten field; a single flipped bit).  Then
+unprotection fails with a protection error — unless `opt'` decodes to a header that is *different*
+from the one sent but carries the same Partial IV field, i.e. differs in KID, KID context or group
+flag only; those are judged by `C11_tamper_kid`, `C11_tamper_idcontext` and the group-flag check
+(what remains accepted is adding or removing the recipient's own, redundant KID / KID context,
+which RFC 8613 leaves to the sender). -/
+theorem C11_tamper_response_option (E : AEAD) {S C : Ctx} (hC : C.wf) (hSC : Sends S C)
+    {seq : Nat} {m : Msg} {r rc : ReqId} {P : Protected}
+    (hk : rc.kid = r.kid) (hp : rc.piv = r.piv) (hrc : rc.wfFor C)
+    (hdist : rc.kid ≠ C.recipientId)
+    (h : protect E S seq m (some r) = .ok P)
+    {o : Bytes} (ho : findOpt 9 P.outer.opts = some o) (howf : o.wf)
+    (opts' : List Opt) (opt' : Bytes) (hopt : findOpt 9 opts' = some opt') (hwf' : opt'.wf)
+    (hne : opt' ≠ o) :
+    (∃ e, unprotect E C (some rc) { P.outer with opts := opts' } = .error e ∧
+      e.isProtection = true) ∨
+    (∃ u', uncompress opt' = some u' ∧ u' ≠ sentResponseHeader S r seq ∧
+      u'.piv = (sentResponseHeader S r seq).piv) := by
+  -- the option that was sent decodes to the header that was sent
+  have hsent : uncompress o = some (sentResponseHeader S r seq) := by
+    obtain ⟨_, _, pt, nonce, o0, _, hmode, hP⟩ := protect_response_shape h
+    rw [hP] at ho
+    simp only [findOpt, beq_self_eq_true, if_true, Option.some.injEq] at ho
+    subst ho
+    rcases hmode with ⟨hcr, _, hc, _⟩ | ⟨hcr, hseq, _, hc, _⟩
+    · simp only [sentResponseHeader, hcr, if_true]
+      exact uncompress_of_compress (respUnprot_sendable S (piv := none) (by intro p hp; cases hp)) hc
+    · simp only [sentResponseHeader, hcr, Bool.false_eq_true, if_false]
+      exact uncompress_of_compress (respUnprot_sendable S (piv := some (shortPiv seq))
+        (by intro p hp; cases hp
+            exact ⟨(shortPiv_length hseq).1, (shortPiv_length hseq).2, shortPiv_minimal seq⟩)) hc
+  cases hu : uncompress opt' with
+  | none =>
+    left
+    exact unprotect_of_uncompress_none E (o := { P.outer with opts := opts' }) hopt hu
+  | some u' =>
+    by_cases hpiv : u'.piv = (sentResponseHeader S r seq).piv
+    · right
+      refine ⟨u', rfl, ?_, hpiv⟩
+      intro heq
+      rw [heq] at hu
+      exact hne (uncompress_injective hwf' howf hu hsent)
+    · left
+      have := C11_tamper_response_piv_bytes E hC hSC hk hp hrc hdist h opts' opt' hopt P.outer.code
+        (by intro u'' hu''; rw [hu] at hu''; cases hu''; exact hpiv)
+      exact this
+
+-- ## The outer code -------------------------------------------------------------------------------
+
+/-- **A changed outer code that does not fit is a protection error** (round 4; formerly an
+`AssertionError` / a bare `ValueError`).  The outer code travels unprotected.  Whatever it is
+changed to: a code that is not a response code where request identifiers are given (2.04 → 0.04),
+a response code where none are given, or a request code other than POST / FETCH (POST → PUT) makes
+`unprotect` fail with `ProtectionInvalid` before anything else is looked at. -/
+theorem C11_outer_code_unfit_rejected (E : AEAD) (B : Ctx) (rid : Option ReqId) (o : Msg)
+    (h : rid.isSome ≠ isResponse o.code ∨ (rid = none ∧ ¬ (o.code = 2 ∨ o.code = 5))) :
+    unprotect E B rid o = .error .protectionInvalid := by
+  apply unprotect_of_recv_error
+  by_cases h1 : (rid.isSome != isResponse o.code) = true
+  · simp [recvParams, h1]
+  · rcases h with h | ⟨hr, hc⟩
+    · exact absurd (by simpa using h) h1
+    · subst hr
+      have hresp : isResponse o.code = false := by simpa using h1
+      have h2 : ¬ o.code = 2 := fun h => hc (Or.inl h)
+      have h5 : ¬ o.code = 5 := fun h => hc (Or.inr h)
+      simp [recvParams, hresp, h2, h5]
+
+/-- **A changed outer code that does fit changes nothing in the message.**  Responses: any other
+response code (2.04 ↔ 2.05, …) yields exactly the same result. -/
+theorem C11_outer_code_unauthenticated_response (E : AEAD) (C : Ctx) (r : ReqId) (o : Msg)
+    (code' : Nat) (hc : isResponse o.code = true) (hc' : isResponse code' = true) :
+    unprotect E C (some r) { o with code := code' } = unprotect E C (some r) o := by
+  have hsel : ∀ u, selectPiv C (some r) code' u = selectPiv C (some r) o.code u := by
+    intro u; unfold selectPiv; cases u.piv <;> rfl
+  simp only [unprotect, recvParams, hc, hc', hsel, finishUnprotect, Bool.not_true, Bool.false_and]
+
+/-- Requests: POST ↔ FETCH yields the same message; only the code style remembered for the
+response (2.04 / 2.05, itself unauthenticated) follows the outer code. -/
+theorem C11_outer_code_unauthenticated_request (E : AEAD) (B : Ctx) (o : Msg) (code' : Nat)
+    (hc : o.code = 2 ∨ o.code = 5) (hc' : code' = 2 ∨ code' = 5) :
+    unprotect E B none { o with code := code' } =
+      (unprotect E B none o).map (fun p => (p.1, { p.2 with style := code' })) := by
+  have hr : isResponse o.code = false := isResponse_of_post_fetch hc
+  have hr' : isResponse code' = false := isResponse_of_post_fetch hc'
+  have hb : (o.code == 2 || o.code == 5) = true := by rcases hc with h | h <;> simp [h]
+  have hb' : (code' == 2 || code' == 5) = true := by rcases hc' with h | h <;> simp [h]
+  simp only [unprotect, recvParams, hr, hr', hb, hb', Option.isSome_none, bne_self_eq_false,
+    Bool.false_eq_true, if_false, Bool.not_false, Bool.not_true, Bool.and_false]
+  cases findOpt 9 o.opts with
+  | none => rfl
+  | some opt =>
+    simp only
+    cases uncompress opt with
+    | none => rfl
+    | some u =>
+      simp only
+      cases hids : idsAcceptable B u with
+      | false => rfl
+      | true =>
+        simp only [Bool.not_true, Bool.false_eq_true, if_false]
+        cases hpv : u.piv with
+        | none => simp [selectPiv, hpv, Except.map]
+        | some piv =>
+          simp only [selectPiv, hpv, hc, hc', if_true]
+          cases u.group with
+          | true => rfl
+          | false =>
+            simp only [Bool.false_eq_true, if_false]
+            by_cases hlen : o.payload.length < E.tagBytes + 1
+            · simp only [hlen, if_true]; rfl
+            · simp only [hlen, if_false]
+              cases constructNonce B.ivBytes B.commonIv piv B.recipientId with
+              | none => rfl
+              | some nonce =>
+                simp only
+                cases E.dec B.recipientKey nonce (aad B.algValue B.recipientId piv) o.payload with
+                | none => rfl
+                | some pt =>
+                  simp only
+                  cases parsePlaintext pt with
+                  | none => rfl
+                  | some inner => rfl
 
 /-- A request whose (redundant) KID and KID context were stripped from the OSCORE option is
 still accepted by the context it is handed to, and yields the same message: absent fields are
@@ -650,6 +820,39 @@ example : uncompress [0x10] = none ∧ uncompress [0x11, 0x01] = none ∧
     uncompress [0x19, 0x14, 0x01, 0x37, 0x01] =
       some { piv := some [0x14], kid := some [1], kidContext := some [0x37], group := false } := by
   decide +kernel
+
+/-- the round-4 defects, in the model of the fixed code: bytes behind the announced fields of a
+k-less option (`01 05 aa`, `00 aa bb`, KID context followed by junk), a non-empty option without
+flags (`00`), a Partial IV with a leading zero byte (`02 00 05`) are decode errors; the same bytes
+behind a KID flag are the KID; `01 00` (the number 0) is fine -/
+example : uncompress [0x01, 0x05, 0xaa] = none ∧ uncompress [0x00, 0xaa, 0xbb] = none ∧
+    uncompress [0x00] = none ∧ uncompress [0x11, 0x05, 0x01, 0x37, 0xaa] = none ∧
+    uncompress [0x02, 0x00, 0x05] = none ∧ uncompress [0x0a, 0x00, 0x05, 0x01] = none ∧
+    uncompress [0x01, 0x05] = some { piv := some [5], kid := none, kidContext := none, group := false } ∧
+    uncompress [0x09, 0x05, 0xaa] =
+      some { piv := some [5], kid := some [0xaa], kidContext := none, group := false } ∧
+    uncompress [0x01, 0x00] =
+      some { piv := some [0], kid := none, kidContext := none, group := false } := by
+  decide +kernel
+
+/-- the later response of the example with its Partial IV `01 07` re-encoded as `02 00 07`, with a
+byte appended, and the first response's empty option replaced by `00 aa`: protection errors; a
+response whose outer code 2.05 (69) became 0.05 (5) or 2.04 (68): protection error / same message;
+the request with outer code FETCH (5) changed to 0.07 (7): protection error -/
+example :
+    (exLater.bind fun P => errOf (unprotect transparentAead exA (some exRc)
+      { P.outer with opts := [(9, [2, 0, 7])] })) = some .decodeError ∧
+    (exLater.bind fun P => errOf (unprotect transparentAead exA (some exRc)
+      { P.outer with opts := [(9, [1, 7, 0xaa])] })) = some .decodeError ∧
+    (exFirst.bind fun P => errOf (unprotect transparentAead exA (some exRc)
+      { P.outer with opts := [(9, [0, 0xaa])] })) = some .decodeError ∧
+    (exLater.bind fun P => errOf (unprotect transparentAead exA (some exRc)
+      { P.outer with code := 5 })) = some .protectionInvalid ∧
+    (exLater.bind fun P => okOf (unprotect transparentAead exA (some exRc)
+      { P.outer with code := 68 })) =
+      (exLater.bind fun P => okOf (unprotect transparentAead exA (some exRc) P.outer)) ∧
+    (exProtected.bind fun P => errOf (unprotect transparentAead exB none
+      { P.outer with code := 7 })) = some .protectionInvalid := by decide +kernel
 
 /-- the hypothesis of the `_partial` ciphertext clauses is satisfiable: a ciphertext with one
 flipped bit is not an encryption of anything under the same key, nonce and AAD -/
